@@ -149,7 +149,18 @@ class VCSAPI:
     def status(self, required_files: typ.Set[str]) -> typ.List[str]:
         """Get status lines."""
         status_output = self('status')
-        status_items  = [line.split(" ", 1) for line in status_output.splitlines()]
+        status_items: typ.List[typ.Tuple[str, str]] = []
+        for line in status_output.splitlines():
+            if self.name == 'git':
+                # porcelain format: "XY <path>", X and/or Y may be a space (e.g. " M <path>")
+                status, filepath = line[:2], line[3:]
+                if status[:1] in ("R", "C") and " -> " in filepath:
+                    # renamed/copied: "R  <old path> -> <new path>"
+                    old_filepath, filepath = filepath.split(" -> ", 1)
+                    status_items.append((status, old_filepath))
+            else:
+                status, filepath = line.split(" ", 1)
+            status_items.append((status, filepath))
 
         return [
             filepath.strip()
